@@ -383,14 +383,18 @@ func forbidden(c tcase, eff []string) []string {
 
 func main() {
 	r := ev.Start("C29", ev.Exploration)
+	fatal := func(format string, a ...any) {
+		sw.Cleanup()
+		r.Fatal(format, a...)
+	}
 	idOfR1 = sw.NewObject(sw.CID("A"), sw.SecretAttr, sw.SecretVal, sw.R1Payload).GetID()
 	{
 		w, err := sw.New(sw.Config{BasicACL: sw.AllowAllACL(), LocalInContainer: true, ACLSeesLocalHeaders: true})
 		if err != nil {
-			r.Fatal("%v", err)
+			fatal("%v", err)
 		}
 		if w.R1.GetID() != idOfR1 {
-			r.Fatal("object IDs are not deterministic")
+			fatal("object IDs are not deterministic")
 		}
 		idOfR2 = w.R2.GetID()
 		w.Close()
@@ -407,7 +411,7 @@ func main() {
 	check := func(c tcase) {
 		got, applicable, err := run(c, false)
 		if err != nil {
-			r.Fatal("%s: %v", c, err)
+			fatal("%s: %v", c, err)
 		}
 		if !applicable {
 			mu.Lock()
@@ -418,7 +422,7 @@ func main() {
 		r.Eval(1)
 		twin, _, err := run(c, true)
 		if err != nil {
-			r.Fatal("%s (twin): %v", c, err)
+			fatal("%s (twin): %v", c, err)
 		}
 		desc := fmt.Sprintf("%s -> status=%s %q messages=%d bodyBytes=%d effects=%v shardErrorCounter+=%d treeDiff=%v; twin without the fault -> status=%s %q effects=%s",
 			c, got.Status, got.Detail, got.NMsg, got.BodySize, got.Effects, got.ErrDelta, got.TreeDiff, twin.Status, twin.Detail, effectClasses(twin.Effects))
@@ -476,7 +480,7 @@ func main() {
 		twinEffective := twin.Status == "OK" || twin.Code == codeIncompleteOK || len(twin.Effects) > 0
 		twinOKish := twin.Status == "OK" || twin.Code == codeIncompleteOK
 		if c.LocalIn && !twinOKish {
-			r.Fatal("%s: the twin request without the fault is not served (node in container): %s %q — the harness request is not valid", c, twin.Status, twin.Detail)
+			fatal("%s: the twin request without the fault is not served (node in container): %s %q — the harness request is not valid", c, twin.Status, twin.Detail)
 		}
 		if !twinEffective {
 			mu.Lock()
@@ -506,6 +510,7 @@ func main() {
 		r.LoadReplay(&c)
 		fmt.Println("replaying", c)
 		check(c)
+		sw.Cleanup()
 		r.Finish()
 	}
 
@@ -570,7 +575,7 @@ func main() {
 		}
 	}
 	if len(missing) > 0 && r.Violations() == 0 {
-		r.Fatal("no case refused for the intended reason (with an effective twin) for: %v (new RPC needs a request builder / fault mapping in props/c29 and worlds/svcworld?)", missing)
+		fatal("no case refused for the intended reason (with an effective twin) for: %v (new RPC needs a request builder / fault mapping in props/c29 and worlds/svcworld?)", missing)
 	}
 
 	var rm, na []string
@@ -608,5 +613,6 @@ func main() {
 		"V2 session tokens, N3 witness signatures and trusted-peer unsigned TTL=1 requests are outside the alphabet",
 		"static dominance of checks over effects in the program text is not decided; what is decided is the dynamic product above over the actual method set")
 	r.Exhaustive(true)
+	sw.Cleanup()
 	r.Finish()
 }
